@@ -47,6 +47,8 @@ func (self *JSONRdr) Node() (node.Node, error) {
 func (self *JSONRdr) decode() (map[string]interface{}, error) {
 	if self.values == nil {
 		d := json.NewDecoder(self.In)
+		// keep the digits: decoding numbers into float64 changes integers beyond 2^53
+		d.UseNumber()
 		if err := d.Decode(&self.values); err != nil {
 			return nil, err
 		}
@@ -172,7 +174,8 @@ func JsonContainerReader(container map[string]interface{}) node.Node {
 
 func jsonKeyMatches(keyFields []meta.Leafable, candidate map[string]interface{}, key []val.Value) bool {
 	for i, field := range keyFields {
-		if fqkGetOrNil(field, candidate) != key[i].String() {
+		// the decoded value may be a string, a number or a bool
+		if fmt.Sprint(fqkGetOrNil(field, candidate)) != key[i].String() {
 			return false
 		}
 	}
